@@ -38,6 +38,9 @@ type sconn struct {
 	readErr   error    // injected read error
 	writeErr  error    // injected write error
 	blockW    bool     // peer stops reading: Write blocks until the write deadline, then times out
+	partialAt int      // >0: the partialAt-th Write accepts only partialN bytes and then reports a timeout
+	partialN  int
+	nwrites   int
 	closed    bool
 	closedAt  time.Duration
 	written   []wrec
@@ -130,6 +133,12 @@ func (c *sconn) Write(p []byte) (int, error) {
 	if c.writeErr != nil {
 		c.ev("write->err")
 		return 0, c.writeErr
+	}
+	c.nwrites++
+	if c.partialAt > 0 && c.nwrites == c.partialAt && c.partialN < len(p) {
+		c.ev("write %d of %d bytes, then timeout", c.partialN, len(p))
+		c.written = append(c.written, wrec{vsched.NowOffset(), append([]byte{}, p[:c.partialN]...)})
+		return c.partialN, &net.OpError{Op: "write", Net: "scripted", Err: timeoutErr{}}
 	}
 	c.ev("write %d bytes", len(p))
 	c.written = append(c.written, wrec{vsched.NowOffset(), append([]byte{}, p...)})
